@@ -66,6 +66,9 @@ def check_windows(F, R, names, rule='W1', only=None):
                     if mm['init'] is None or not mm['fn'].vis.startswith('Public'):
                         continue
                     t = mm['init'].get(used)
+                    if not any(ty_ == 'usize' for (_, _, ty_) in mm['fn'].param_ids()) and isinstance(t, tuple) and t[:1] == ('lit',) \
+                            and isinstance(t[1], int) and t[1] >= 1:
+                        continue        # a constructor without a length argument (Default) fixes its own, positive, window length
                     if not (isinstance(t, tuple) and t and t[0] == 'arg'):
                         bad = '%s stores %s in `%s`: the window holds that many values, not the requested window length' % (
                             mm['fn'].name, tstr(t)[:60] if t else '?', used)
